@@ -100,8 +100,9 @@ CHECKS["C13"] = {
 
 SYS_NOTE = "real goroutine scheduling and real sockets: interleavings are sampled; liveness ('settles', 'reconnects') is decided against deadlines of 20 s (x3 on a miss) where measured latencies are 5-500 ms"
 CHECKS["C01"] = {
-    "subs": [{"pkg": "sys", "test": "TestC01", "quick": 96, "thorough": 2400, "shards_quick": 8, "shards_thorough": 12, "shrinktime": "10s", "timeout_quick": 900, "timeout_thorough": 7200}],
-    "engine": "SYS",
+    "subs": [{"pkg": "sys", "test": "TestC01", "quick": 96, "thorough": 2400, "shards_quick": 8, "shards_thorough": 12, "shrinktime": "10s", "timeout_quick": 900, "timeout_thorough": 7200},
+             {"pkg": "sim", "test": "TestC01Sim", "quick": 3000, "thorough": 100000, "shards_quick": 4, "shards_thorough": 8}],
+    "engine": "SYS+SIM",
     "level_text": "Generated scenarios against in-process clusters of real servers with self-stamping upstreams (Go SDK and agent, HTTP and TCP): every response must come from an upstream of exactly the addressed endpoint or be a gateway error, and after settling every node must serve exactly the endpoints that have an upstream somewhere. Exploration only.",
     "technique": "scenario-level PBT (rapid) on real in-process servers; oracle = stamps written by the upstreams + model placement",
     "level_note": SYS_NOTE,
